@@ -223,7 +223,21 @@ def _doc(draw, id_mode: str):
         feats.update(g.feats)
         state_syms = [*state_syms, pid]
     inits = []
-    if draw(st.integers(0, 3)) == 0:
+    if draw(st.integers(0, 4)) == 0:
+        # a chain of initial assignments on parameters, listed in either order; the upstream parameter also
+        # has a value attribute that the document overrides
+        g = EG(draw, const_syms, [])
+        up, down = next(ids), next(ids)
+        params.append({"id": up, "value": draw(st.sampled_from([0.5, 2.0, 3.0])), "constant": True, "ia": True})
+        params.append({"id": down, "value": 1.0, "constant": True, "ia": True})
+        chain = [{"symbol": up, "expr": ["+", ["num", 0.25], g.expr(1)]}, {"symbol": down, "expr": ["*", ["sym", up], ["num", draw(st.sampled_from([0.5, 2.0, 1.5]))]]}]
+        if draw(st.booleans()):
+            chain.reverse()
+            feats.add("initial_assignment_chain_listed_downstream_first")
+        inits.extend(chain)
+        state_syms = [*state_syms, up, down]
+        feats.add("initial_assignment_chain")
+    elif draw(st.integers(0, 3)) == 0:
         g = EG(draw, const_syms, [])
         tgt = draw(st.sampled_from(["parameter", "species"]))
         if tgt == "parameter":
@@ -278,7 +292,8 @@ def _case(draw, modes=("plain", "plain", "plain", "keywords", "module_names", "s
     case = {"mode": mode, "doc": doc, "amounts": [draw(st.sampled_from([0.4, 0.8, 1.3, 2.2, 3.5])) for _ in doc["species"]], "time": draw(st.sampled_from([0.0, 0.7, 2.0]))}
     if mode == "session":
         case["doc2"] = draw(_doc("plain"))
-        case["stems"] = draw(st.sampled_from([["Model-1", "model_1"], ["net.v2", "netv2"], ["same", "same"], ["My Model", "my-model"]]))
+        case["stems"] = draw(st.sampled_from([["Model-1", "model_1"], ["net.v2", "netv2"], ["same", "same"], ["My Model", "my-model"], ["overwritten", "overwritten"]]))
+        case["same_path"] = case["stems"][0] == "overwritten"
     return case
 
 
@@ -367,9 +382,12 @@ def reference(doc: dict, amounts: dict[str, float] | None, t: float):
     comp = {c["id"]: c["size"] for c in doc["comps"]}
     sp = {s["id"]: s for s in doc["species"]}
     const = {p["id"]: p["value"] for p in doc["params"] if p["constant"]}
-    for ia in doc["inits"]:
-        if ia["symbol"] in const:
-            const[ia["symbol"]] = ev(ia["expr"], {**const, **comp}, fns, 0.0)
+    ia_syms = {ia["symbol"] for ia in doc["inits"]}
+    for _ in range(len(doc["inits"]) + 1):  # as many passes as there are assignments: any listing order
+        for ia in doc["inits"]:
+            if ia["symbol"] in const:
+                const[ia["symbol"]] = ev(ia["expr"], {**const, **comp}, fns, 0.0)
+    del ia_syms
     init_amount = {}
     for s in doc["species"]:
         v = comp[s["comp"]]
@@ -570,14 +588,20 @@ def examine(case: dict, ctx) -> Outcome:
     d1.mkdir()
     d2.mkdir()
     f1, f2 = d1 / f"{case['stems'][0]}.xml", d2 / f"{case['stems'][1]}.xml"
+    if case.get("same_path"):
+        f2 = f1  # the same file is edited and read again
+        out.classes.append("session:same-path-overwritten")
     try:
         write_doc(doc, f1)
-        write_doc(doc2, f2)
+        if not case.get("same_path"):
+            write_doc(doc2, f2)
     except Exception as e:  # noqa: BLE001
         out.skipped = f"libsbml-rejects-document:{type(e).__name__}"
         return out
     try:
         m1 = sbml.read(f1)
+        if case.get("same_path"):
+            write_doc(doc2, f2)
         m2 = sbml.read(f2)
     except Exception as e:  # noqa: BLE001
         out.bad(f"session:read-raises:{type(e).__name__}", error=repr(e)[:200])
